@@ -64,6 +64,20 @@ var solvers = []solverSpec{
 		return []string{"cvc5", "--produce-models", fmt.Sprintf("--tlimit=%d", t*1000), f}
 	}},
 	{"z3", func(f string, t int) []string { return []string{"z3", fmt.Sprintf("-T:%d", t), f} }},
+	// enumerative quantifier instantiation: decides goals whose proof needs an assumed
+	// universally quantified invariant instantiated at a Skolem term that E-matching misses
+	{"cvc5-enum", func(f string, t int) []string {
+		return []string{"cvc5", "--produce-models", "--enum-inst", fmt.Sprintf("--tlimit=%d", t*1000), f}
+	}},
+}
+
+// solversFor returns the portfolio for a query: the enumerative configuration only runs
+// on quantified queries.
+func solversFor(query string) []solverSpec {
+	if strings.Contains(query, "(forall") {
+		return solvers
+	}
+	return solvers[:3]
 }
 
 func runSolver(ctx context.Context, s solverSpec, file string, timeout int) (status, raw string, dur float64) {
@@ -220,8 +234,9 @@ func Solve(tr *TargetResult, opts *SolveOpts) []*OblResult {
 				if round > 0 && best.status != "timeout" && best.status != "unknown" {
 					break
 				}
-				ch := make(chan ans, len(solvers))
-				for _, s := range solvers {
+				port := solversFor(base)
+				ch := make(chan ans, len(port))
+				for _, s := range port {
 					s := s
 					go func() {
 						opts.acquire()
@@ -234,7 +249,7 @@ func Solve(tr *TargetResult, opts *SolveOpts) []*OblResult {
 						ch <- ans{st, raw, s.name, d}
 					}()
 				}
-				for k := 0; k < len(solvers); k++ {
+				for k := 0; k < len(port); k++ {
 					a := <-ch
 					raws = append(raws, fmt.Sprintf("[%s %.1fs] %s", a.solver, a.dur, firstLines(a.raw, 3)))
 					if a.status == "unsat" {
@@ -391,8 +406,8 @@ func CrossCheck(tr *TargetResult, results []*OblResult, opts *SolveOpts, budget 
 			file := filepath.Join(opts.TmpDir, fmt.Sprintf("x_%s_%d.smt2", tag, i))
 			os.WriteFile(file, []byte(tr.ScriptFor(r.Obl.Cond)+"(assert "+r.Obl.Cond+")\n(check-sat)\n"), 0o644)
 			defer os.Remove(file)
-			for _, s := range solvers {
-				if s.name == r.Solver || outs[i].agreed {
+			for _, s := range solversFor(tr.ScriptFor(r.Obl.Cond)) {
+				if s.name == r.Solver || outs[i].agreed || (strings.HasPrefix(s.name, "cvc5") && strings.HasPrefix(r.Solver, "cvc5")) {
 					continue
 				}
 				opts.acquire()
